@@ -229,10 +229,10 @@ Theorem C07_the_destructor_that_releases_the_caller_runs_on_a_destroyed_callee :
   forall (T : Type) (P : prims T) f t x s r,
     WF s -> alive (th s t) = true -> go P (S f) (KKill t) x s = Some r ->
     exists x2 s2 x3 s3,
-      let sd := match vst (th s t) with
+      let sd := ev_cancel match vst (th s t) with
                 | VIdling => resolve (remove_from_class s2 (grp (th s t))) t RNil
                 | _ => remove_from_class s2 (grp (th s t))
-                end in
+                end t in
       WF sd /\ alive (th sd t) = false /\
       go P f (KDtor (LThr t)) x2 sd = Some (x3, s3) /\
       r = (x3, if opt_eqb (cur s3) t then set_cur s3 None else s3).
@@ -251,6 +251,48 @@ Proof.
               registration_survives_other_withdrawals)).
 Qed.
 Print Assumptions C07_a_registration_is_taken_out_only_through_its_own_listener_or_thread.
+
+(* Timed waittills.  `o waittill_timeout d n` registers like waittill and posts a cancel event on
+   the thread, due at clock + d; the wait ends at the notify or at the deadline, whichever comes
+   first, once: every StoppedWaitFor of a live thread (a notify of any name, the release by a
+   dead callee, the firing timeout itself) cancels the thread's pending timeout events before
+   anything else - a timeout event never outlives the wait that posted it; a deleted thread
+   leaves none; the tasks that delete threads post none.  (The event queue itself - sorted by
+   (time, posting order) - is C08's subject and is shared by model and specification.) *)
+Theorem C07_a_wake_up_cancels_the_pending_timeouts_of_the_thread :
+  forall (T : Type) (P : prims T) f w n x s,
+    alive (th s w) = true ->
+    go P (S f) (KStoppedWaitFor w n) x s =
+    (let s' := ev_cancel s w in
+     if is_waiting (tst (th s w)) then
+       match n with
+       | NE => go P f (KStartTiming w 0) x s'
+       | _ => match vst (th s w) with
+              | VIdling => go P f (KExecute w) x s'
+              | VSuspended => Some (x, upd s' w (w_vst (th s w) VRunning))
+              | VRunning => Some (x, s')
+              end
+       end
+     else Some (x, s')).
+Proof. exact (@a_wake_up_cancels_the_pending_timeouts). Qed.
+Print Assumptions C07_a_wake_up_cancels_the_pending_timeouts_of_the_thread.
+
+Theorem C07_cancelling_leaves_no_timeout_event_of_the_thread :
+  forall s w e, In e (evq (ev_cancel s w)) -> fst e <> w.
+Proof. exact ev_cancel_none. Qed.
+Print Assumptions C07_cancelling_leaves_no_timeout_event_of_the_thread.
+
+Theorem C07_a_deleted_thread_leaves_no_timeout_event :
+  forall (T : Type) (P : prims T) f t x s x' s',
+    WF s -> alive (th s t) = true -> go P (S f) (KKill t) x s = Some (x', s') ->
+    forall e, In e (evq s') -> fst e <> t.
+Proof. exact (@a_deleted_thread_leaves_no_timeout). Qed.
+Print Assumptions C07_a_deleted_thread_leaves_no_timeout_event.
+
+Theorem C07_deleting_threads_posts_no_timeout_event :
+  forall (T : Type) (P : prims T) f k x s, deleting k -> Sv s (go P f k x s).
+Proof. exact (@Sv_go). Qed.
+Print Assumptions C07_deleting_threads_posts_no_timeout_event.
 
 (* the interpreter's fuel: a result obtained with some fuel is the result with any larger fuel
    (the particular amount [fuel_for] only decides WHETHER a result is obtained) *)
@@ -343,6 +385,24 @@ Example C07_endon_names_example :
     [ Some ([(1, PM 10); (2, PM 20); (3, PM 30); (0, PM 50); (0, PM 51)], 1%nat); Some ([], 1%nat);
       Some ([(2, PM 21)], 0%nat) ].
 Proof. vm_compute. split; reflexivity. Qed.
+
+(* A timeout does not outlive its wait: thread 1 blocks in `waittill_timeout 3 a`, is notified at
+   time 1, blocks in `waittill b`; the old deadline passes at time 3 and nothing happens; it
+   proceeds at `notify b` (time 5).  Thread 2's `waittill_timeout 2 c` ends at its deadline. *)
+Example C07_timeout_example :
+  map (option_map (fun o => (prints o, nthreads o)))
+      (run [ OStart [ ISpawn 0;
+                      IThread [IPrint 1; IWaitTillTimeout 0 3 NA; IPrint 2; IWaitTill 0 NB; IPrint 3];
+                      IThread [IPrint 4; IWaitTillTimeout 0 2 NC; IPrint 5] ];
+             OAdvance 1; OExecute; OStart [INotify 0 NA; IPrint 6];
+             OAdvance 1; OExecute; OAdvance 1; OExecute; OAdvance 2; OExecute;
+             OStart [INotify 0 NB; IPrint 7] ]) =
+  [ Some ([(1, PM 1); (2, PM 4)], 2%nat); Some ([], 2%nat); Some ([], 2%nat);
+    Some ([(1, PM 2); (3, PM 6)], 2%nat);
+    Some ([], 2%nat); Some ([(2, PM 5)], 1%nat); Some ([], 1%nat); Some ([], 1%nat);
+    Some ([], 1%nat); Some ([], 1%nat);
+    Some ([(1, PM 3); (4, PM 7)], 0%nat) ].
+Proof. vm_compute. reflexivity. Qed.
 
 (* The stale wake-up (finding C07-stale-wake): model (= engine) prints 4 although (o0, c) was
    never notified; in the specification thread 2 stays blocked on (o0, c) and the flag is up. *)
